@@ -6,7 +6,8 @@ from props.codec_common import *
 THEOREMS = ["C04_primary", "C04_canonical", "C04_bundle_layout", "C04_fresh_passes"]
 RULE = ("CRC16/CRC32 on raw strings (lengths 0-300; random, all-zero, all-ones) against the crc-crate instances bp7 exports; RT "
         "<bundle> with every prior CRC state per block (absent, empty placeholder, stale value of either width): the CRC bytes on "
-        "the wire are recomputed by the Python reference over the zero-filled block; non-trivial = distinct line (raw string of "
+        "the wire are recomputed by the Python reference over the zero-filled block; RTV <bundle>: the library's own crc_valid on the bundle just "
+        "encoded and on its decoded wire image must be true (incl. searched witnesses whose correct CRC-16 is exactly 0x0000); non-trivial = distinct line (raw string of "
         "length >= 1, or bundle with at least one CRC-carrying block)")
 TRUSTED_BASE = CODEC_TRUSTED
 ASSUMPTIONS = []
@@ -15,6 +16,11 @@ ASSUMPTIONS = []
 def corpus():
     out = ["CRC16 x313233343536373839", "CRC32 x313233343536373839", "CRC16 x", "CRC32 x"]
     out += ["RT " + genb.show_bundle(b) for b in boundary_bundles()[:12]]
+    # blocks whose correct CRC-16 is exactly 0x0000: the emitted value must still be the RFC's and the library's own check must pass
+    for b in genb.zero_crc_bundles():
+        out.append("RT " + genb.show_bundle(b))
+        out.append("RTV " + genb.show_bundle(b))
+    out += ["RTV " + genb.show_bundle(b) for b in boundary_bundles()[:12]]
     return out
 
 
@@ -27,6 +33,8 @@ def cases(rng, tier):
     for _ in range(1200 if tier == "quick" else 100000):
         b = genb.rnd_bundle(rng, nblocks=rng.randrange(0, 6))
         out.append("RT " + genb.show_bundle(b))
+        if rng.random() < 0.5:
+            out.append("RTV " + genb.show_bundle(genb.reorder(rng, b)))
     return out
 
 
@@ -38,6 +46,10 @@ def oracle(line, out, mode):
     if tok[0] == "CRC32":
         want = genb.crc32c(bytes.fromhex(tok[1][1:]))
         return None if out == "OK %d" % want else "CRC-32C mismatch"
+    if tok[0] == "RTV":
+        if out != "OK MEM T WIRE OK T":
+            return "a freshly encoded bundle does not pass the library's own CRC check (in memory / after decoding): %s" % out[:40]
+        return None
     if not out.startswith("OK "):
         return "encoding fails: %s" % out[:30]
     b = genb.parse_bundle_line(line[3:])
